@@ -99,6 +99,32 @@ def util_units(ctx):
     return units
 
 
+def util_deep_units():
+    """the small-scope search run when the tie is broken: every two-entry
+    table over a name and its extensions by a fragment of the separators (all
+    plain), every parent pair, every query"""
+    frags = ['', '2', '_', '__', '___', '___v', '___version', '___versio', '___version_',
+             '___version1', '.', '-', '_parent___', 'parent___', '0']
+    units = []
+    for base in ('a', 'alg'):
+        fam = [base + f for f in frags]
+        for other in fam[1:]:
+            for p1, p2 in ((0, 0), (0, 1), (1, 11), (11, 1)):
+                for v in ((1, 0, 0), (1, 10, 0)):
+                    vs = '.'.join(map(str, v))
+                    items = [(str(p1) + SEP_P + base + SEP_V + vs, 0),
+                             (str(p2) + SEP_P + other + SEP_V + vs, 1),
+                             (str(p1) + SEP_P + other, 2)]
+                    for q in (base, other):
+                        for parents in ([p1], [p2], [p1, p2]):
+                            units.append({'f': 'subset', 'table': items, 'name': q, 'parents': parents})
+        for n in fam:
+            for p in (None, 0, 1, 11, 110):
+                for v in (None, (1, 0, 0), (1, 10, 0), (-1, 0, 0)):
+                    units.append({'f': 'roundtrip', 'name': n, 'parent': p, 'ver': list(v) if v else None})
+    return units
+
+
 def _util_oracle(units, impl):
     '''C08/C15 on the python functions themselves: dissect inverts construct
     on plain names; construct is injective over the domain; subset is exact on
@@ -169,7 +195,10 @@ def util_validate(ctx, g, pid='C08'):
     failed = (not g['ok']) or proofs_failed(ctx)
     found = False
     if failed:
-        for kind, fields, what, rp in _util_oracle(units, impl):
+        deep = util_deep_units()
+        dimpl = ctx.harness('drive_gen.py', {'util': deep})['util']
+        ctx.note('source_tie_util_deep_search', len(deep))
+        for kind, fields, what, rp in _util_oracle(units, impl) + _util_oracle(deep, dimpl):
             found = True
             ctx.violation(kind, fields, '%s: %s' % (pid, what), dict(rp, source='oracle (python functions)',
                           theorem='C08_construct_injective / C15 dissect_construct / C08_subset_exact'))
@@ -204,5 +233,156 @@ def util_validate(ctx, g, pid='C08'):
           for u in units if u['f'] != 'subset' and (SEP_P in (u.get('s') or '') or u.get('parent') is not None)]
     ctx.count(evaluations=len(units), nontrivial_keys=nt)
     ctx.note('source_tie_util', {'units': len(units), 'translator_ok': g['ok'],
+                                 'generated_vs_python_mismatch': bad})
+    return not (failed or bad)
+
+
+# =============================================================================
+# dawgie/util/fifo.py class Unique  (C03: the todo sets)
+# =============================================================================
+FIFO_PRE = '''
+Inductive sop := SAdd (v : nat) | SDiscard (v : nat) | SUpdate (l : list nat) | SContains (v : nat) | SCopy.
+Inductive sres := RNone | RBool (b : bool) | RCopy (l : list nat) | RExc.
+Definition sobs (st : FifoGen.ustate) (r : sres) := (FifoGen.iter st, FifoGen.len st, r).
+Fixpoint srun (st : FifoGen.ustate) (ops : list sop) : list (list nat * nat * sres) :=
+  match ops with
+  | [] => []
+  | SAdd v :: r => let st := FifoGen.add st v in sobs st RNone :: srun st r
+  | SDiscard v :: r => match FifoGen.discard st v with
+                       | Some st => sobs st RNone :: srun st r
+                       | None => [([], 0, RExc)] end
+  | SUpdate l :: r => let st := FifoGen.update st l in sobs st RNone :: srun st r
+  | SContains v :: r => sobs st (RBool (FifoGen.contains st v)) :: srun st r
+  | SCopy :: r => sobs st (RCopy (FifoGen.iter (FifoGen.copy st))) :: srun st r
+  end.
+Definition script (it : list nat) (ops : list sop) :=
+  let st := FifoGen.init it in sobs st RNone :: srun st ops.
+'''
+
+
+def fifo_generate(ctx):
+    return _generate(ctx, 'fifo2coq.py', 'Gen/FifoGen.v', 'dawgie.util.fifo.Unique',
+                     'Python/dawgie/util/fifo.py',
+                     ['Unique.__init__', 'Unique.__contains__', 'Unique.__iter__', 'Unique.__len__',
+                      'Unique.add', 'Unique.copy', 'Unique.difference', 'Unique.discard', 'Unique.update'])
+
+
+def fifo_scripts(ctx):
+    rng = random.Random('%s:gen-fifo' % ctx.seed)
+    alpha = [['add', v] for v in (1, 2, 3)] + [['discard', v] for v in (1, 2, 3)] \
+        + [['update', l] for l in ([], [1, 2], [2, 2, 3], None)] \
+        + [['contains', v] for v in (1, 3)] + [['copy', None]]
+    inits = [None, [], [2, 1, 2], [3, 1, 2, 1]]
+    out = []
+    for it in inits:
+        for k in (1, 2):
+            for ops in itertools.product(alpha, repeat=k):
+                out.append({'init': it, 'ops': [list(o) for o in ops]})
+    for _ in range(ctx.n(150, 1500)):
+        out.append({'init': rng.choice(inits + [[rng.randint(0, 5) for _ in range(rng.randint(0, 6))]]),
+                    'ops': [list(rng.choice(alpha)) if rng.random() < 0.7 else
+                            [rng.choice(['add', 'discard', 'contains']), rng.randint(0, 6)]
+                            for _ in range(rng.randint(3, 8))]})
+    return out
+
+
+def _fifo_expr(sc):
+    def lst(l):
+        return '[' + ';'.join(str(x) for x in (l or [])) + ']'
+    ops = []
+    for op, a in sc['ops']:
+        ops.append({'add': 'SAdd %d', 'discard': 'SDiscard %d', 'contains': 'SContains %d'}[op] % a
+                   if op in ('add', 'discard', 'contains') else
+                   'SUpdate %s' % lst(a) if op == 'update' else 'SCopy')
+    return 'script %s [%s]' % (lst(sc['init']), ';'.join(ops))
+
+
+def _fifo_canon_model(v):
+    out = []
+    for l, n, r in v:
+        if r == 'RExc' or r == ('RExc',):
+            out.append('EXC')
+            break
+        tag = r if isinstance(r, str) else r[0]
+        val = None if tag == 'RNone' else (r[1] if tag == 'RBool' else ['Unique', list(r[1])])
+        out.append([list(l), n, val])
+    return out
+
+
+def _fifo_canon_impl(r):
+    out = [[list(o[0]), o[1], o[2]] for o in r.get('r', [])]
+    if 'exc' in r:
+        out.append('EXC')
+    return out
+
+
+def _fifo_reference(sc):
+    '''an insertion-ordered set, written down independently (the oracle)'''
+    def add(l, v):
+        return l if v in l else l + [v]
+    cur = []
+    for v in sc['init'] or []:
+        cur = add(cur, v)
+    out = [[cur, len(cur), None]]
+    for op, a in sc['ops']:
+        r = None
+        if op == 'add':
+            cur = add(cur, a)
+        elif op == 'discard':
+            cur = [x for x in cur if x != a]
+        elif op == 'update':
+            for v in a or []:
+                cur = add(cur, v)
+        elif op == 'contains':
+            r = a in cur
+        elif op == 'copy':
+            r = ['Unique', list(cur)]
+        out.append([list(cur), len(cur), r])
+    return out
+
+
+def fifo_validate(ctx, g, pid='C03'):
+    scripts = fifo_scripts(ctx)
+    impl = ctx.harness('drive_gen.py', {'fifo': scripts})['fifo']
+    ci = [_fifo_canon_impl(r) for r in impl]
+    failed = (not g['ok']) or proofs_failed(ctx)
+    found = False
+    if failed:
+        for sc, a in zip(scripts, ci):
+            want = _fifo_reference(sc)
+            if a != want:
+                found = True
+                ctx.violation('unique-not-an-ordered-set', {},
+                              '%s: fifo.Unique(%r) after %r observes %r, an insertion-ordered set gives %r'
+                              % (pid, sc['init'], sc['ops'], a, want),
+                              {'source': 'oracle (python class)', 'script': sc,
+                               'theorem': 'C03_unique_is_todo_list'})
+                break
+    bad = None
+    if g['ok']:
+        try:
+            vals = ctx.coq_eval(['DV.Gen.FifoGen'], [_fifo_expr(s) for s in scripts],
+                                preamble=FIFO_PRE, z_scope=False)
+            for sc, a, v in zip(scripts, ci, vals):
+                b = _fifo_canon_model(v)
+                if a != b:
+                    bad = {'script': sc, 'python': repr(a), 'generated': repr(b)}
+                    break
+        except core.CoqEvalError as e:
+            bad = {'script': None, 'python': '', 'generated': 'Gen/FifoGen.v does not evaluate: %s' % (e.args[1][-600:],)}
+        if bad and not found:
+            ctx.broken('translator validation: generated Unique disagrees with python',
+                       repr(bad), {'source': 'translator-validation', 'script': bad['script'],
+                                   'expected': bad['generated'], 'observed': bad['python']})
+    elif not found:
+        ctx.broken('translator fifo2coq.py refuses dawgie/util/fifo.py', g['msg'], {'source': 'translator'})
+    if failed and not found and g['ok'] and not bad:
+        ctx.broken('source tie: Gen/FifoGen.v (fifo.py of today) is no longer proved to be the list-set '
+                   'library of Model/Sched.v', 'python still behaves as an insertion-ordered set on %d scripts'
+                   % len(scripts), {'source': 'proof', 'theorem': 'Proofs/FifoGenEq.v'})
+    nt = [('fifo', repr(sc)) for sc in scripts
+          if any(o[0] == 'discard' for o in sc['ops']) and any(o[0] in ('add', 'update') for o in sc['ops'])]
+    ctx.count(evaluations=len(scripts), nontrivial_keys=nt)
+    ctx.note('source_tie_fifo', {'scripts': len(scripts), 'translator_ok': g['ok'],
                                  'generated_vs_python_mismatch': bad})
     return not (failed or bad)
